@@ -109,10 +109,12 @@ func (bf *buffer) ID() int64 {
 func (bf *buffer) Close() error {
 	atomic.StoreInt64(&bf.done, 1)
 
+	verifYield(bf, "x.l1")
 	bf.pcond.L.Lock()
 	bf.pcond.Broadcast()
 	bf.pcond.L.Unlock()
 
+	verifYield(bf, "x.l2")
 	bf.pcond.L.Lock()
 	bf.ccond.Broadcast()
 	bf.pcond.L.Unlock()
@@ -132,6 +134,7 @@ func (bf *buffer) ReadFrom(r io.Reader) (int64, error) {
 	total := int64(0)
 
 	for {
+		verifYield(bf, "rf.top")
 		if bf.isDone() {
 			return total, io.EOF
 		}
@@ -169,6 +172,7 @@ func (bf *buffer) WriteTo(w io.Writer) (int64, error) {
 	total := int64(0)
 
 	for {
+		verifYield(bf, "wt.top")
 		if bf.isDone() {
 			return total, io.EOF
 		}
@@ -206,6 +210,7 @@ func (bf *buffer) Read(p []byte) (int, error) {
 	pl := int64(len(p))
 
 	for {
+		verifYield(bf, "r.load")
 		cpos := bf.cseq.get()
 		ppos := bf.pseq.get()
 		cindex := cpos & bf.mask
@@ -220,9 +225,11 @@ func (bf *buffer) Read(p []byte) (int, error) {
 		//    buffer to p, and copy will just copy until the end of the buffer and stop.
 		//    The number of bytes will NOT be len(p) but less than that.
 		if cpos+pl < ppos {
+			verifYield(bf, "r.copy")
 			n := copy(p, bf.buf[cindex:])
 
 			bf.cseq.set(cpos + int64(n))
+			verifYield(bf, "r.bc")
 			bf.pcond.L.Lock()
 			bf.pcond.Broadcast()
 			bf.pcond.L.Unlock()
@@ -241,6 +248,7 @@ func (bf *buffer) Read(p []byte) (int, error) {
 
 			// bytes copied
 			var n int
+			verifYield(bf, "r.copy")
 
 			// if cindex+n < size, that means we can copy all n bytes into p.
 			// No wrapping in this case.
@@ -252,6 +260,7 @@ func (bf *buffer) Read(p []byte) (int, error) {
 			}
 
 			bf.cseq.set(cpos + int64(n))
+			verifYield(bf, "r.bc")
 			bf.pcond.L.Lock()
 			bf.pcond.Broadcast()
 			bf.pcond.L.Unlock()
@@ -261,14 +270,18 @@ func (bf *buffer) Read(p []byte) (int, error) {
 		// If we got here, that means cpos >= ppos, which means there's no data available.
 		// If so, let's wait...
 
+		verifYield(bf, "r.lock")
 		bf.ccond.L.Lock()
+		verifYield(bf, "r.test")
 		for ppos = bf.pseq.get(); cpos >= ppos; ppos = bf.pseq.get() {
 			if bf.isDone() {
 				return 0, io.EOF
 			}
 
 			bf.cwait++
+			verifYield(bf, "r.wait")
 			bf.ccond.Wait()
+			verifYield(bf, "r.test")
 		}
 		bf.ccond.L.Unlock()
 	}
@@ -286,9 +299,11 @@ func (bf *buffer) Write(p []byte) (int, error) {
 
 	// If we are here that means we now have enough space to write the full p.
 	// Let's copy from p into this.buf, starting at position ppos&this.mask.
+	verifYield(bf, "w.copy")
 	total := ringCopy(bf.buf, p, int64(start)&bf.mask)
 
 	bf.pseq.set(start + int64(len(p)))
+	verifYield(bf, "w.bc")
 	bf.ccond.L.Lock()
 	bf.ccond.Broadcast()
 	bf.ccond.L.Unlock()
@@ -313,18 +328,23 @@ func (bf *buffer) ReadPeek(n int) ([]byte, error) {
 		return nil, bufio.ErrNegativeCount
 	}
 
+	verifYield(bf, "rp.load")
 	cpos := bf.cseq.get()
 	ppos := bf.pseq.get()
 
 	// If there's no data, then let's wait until there is some data
+	verifYield(bf, "rp.lock")
 	bf.ccond.L.Lock()
+	verifYield(bf, "rp.test")
 	for ; cpos >= ppos; ppos = bf.pseq.get() {
 		if bf.isDone() {
 			return nil, io.EOF
 		}
 
 		bf.cwait++
+		verifYield(bf, "rp.wait")
 		bf.ccond.Wait()
+		verifYield(bf, "rp.test")
 	}
 	bf.ccond.L.Unlock()
 
@@ -372,6 +392,7 @@ func (bf *buffer) ReadWait(n int) ([]byte, error) {
 		return nil, bufio.ErrNegativeCount
 	}
 
+	verifYield(bf, "rw.load")
 	cpos := bf.cseq.get()
 	ppos := bf.pseq.get()
 
@@ -380,13 +401,17 @@ func (bf *buffer) ReadWait(n int) ([]byte, error) {
 	next := cpos + int64(n)
 
 	// If there's no data, then let's wait until there is some data
+	verifYield(bf, "rw.lock")
 	bf.ccond.L.Lock()
+	verifYield(bf, "rw.test")
 	for ; next > ppos; ppos = bf.pseq.get() {
 		if bf.isDone() {
 			return nil, io.EOF
 		}
 
+		verifYield(bf, "rw.wait")
 		bf.ccond.Wait()
+		verifYield(bf, "rw.test")
 	}
 	bf.ccond.L.Unlock()
 
@@ -434,7 +459,9 @@ func (bf *buffer) ReadCommit(n int) (int, error) {
 	//    buffer to p, and copy will just copy until the end of the buffer and stop.
 	//    The number of bytes will NOT be len(p) but less than that.
 	if cpos+int64(n) <= ppos {
+		verifYield(bf, "rc.set")
 		bf.cseq.set(cpos + int64(n))
+		verifYield(bf, "rc.bc")
 		bf.pcond.L.Lock()
 		bf.pcond.Broadcast()
 		bf.pcond.L.Unlock()
@@ -469,8 +496,10 @@ func (bf *buffer) WriteCommit(n int) (int, error) {
 	}
 
 	// If we are here then there's enough bytes to commit
+	verifYield(bf, "wc.set")
 	bf.pseq.set(start + int64(cnt))
 
+	verifYield(bf, "wc.bc")
 	bf.ccond.L.Lock()
 	bf.ccond.Broadcast()
 	bf.ccond.L.Unlock()
@@ -534,14 +563,18 @@ func (bf *buffer) waitForWriteSpace(n int) (int64, int, error) {
 	//
 	if wrap > gate || gate > ppos {
 		var cpos int64
+		verifYield(bf, "wfs.lock")
 		bf.pcond.L.Lock()
+		verifYield(bf, "wfs.test")
 		for cpos = bf.cseq.get(); wrap > cpos; cpos = bf.cseq.get() {
 			if bf.isDone() {
 				return 0, 0, io.EOF
 			}
 
 			bf.pwait++
+			verifYield(bf, "wfs.wait")
 			bf.pcond.Wait()
+			verifYield(bf, "wfs.test")
 		}
 
 		bf.pseq.gate = cpos
